@@ -493,7 +493,13 @@ func oracleStream(prop string, mr *muxRun, rs *reqState, cnt *[core.NumCounters]
 			case fault == "abort", fault == "wbreak" && sp.Proto == "ws":
 				// prefix property only (checked above); on WebSocket reading a
 				// close frame makes the library write the close reply, which
-				// fails once writes are broken
+				// fails once writes are broken. One thing more: a client that
+				// went away without having half-closed has not ended its
+				// stream - the handler (local or behind the proxy) must not be
+				// told it has
+				if fault == "abort" && rs.abortedAt >= 0 && rs.ioBrokenAt >= 0 && sp.Proto != "ws" && rs.method.ClientS && l.RecvEOF && l.RecvErr == nil && rs.q.inPendingAt != -1 && !(sp.Proto == "http" && sp.Compress) {
+					return fail("abort-as-eof", "the client went away at step %d without having half-closed (%d of %d bytes sent), yet the handler's Recv ended with a clean io.EOF after %d messages", rs.ioBrokenAt, rs.sent, len(rs.wire), len(l.Recv))
+				}
 			case compressedCut:
 				if l.RecvErr == nil {
 					return fail("truncation-as-eof", "compressed request body cut at %d of %d bytes ended with a clean EOF after %d messages", rs.end, len(rs.wire), len(l.Recv))
